@@ -26,7 +26,13 @@ factory answered, so they show whose registrations and options a copy really use
 Option-sensitive probes (`EXT`, oracles P1/P1'/P2/P3 only -- the Dispatch model treats these options as
 dispatch-neutral): payloads with an extra key (forbid_extra_keys), an instance whose field equals its default
 (omit_if_default), a class with an attrs field converter (prefer_attrib_converters), an invalid payload whose exception
-class is observed (detailed_validation) -- each plain, under `Annotated[...]`, and as an Annotated field of a holder.
+class is observed (detailed_validation), sets / frozensets (unstruct_collection_overrides), a class with a `float` field
+(type_overrides), the class of the mapping an instance is unstructured to (dict_factory) -- each plain, under
+`Annotated[...]`, and as an Annotated field of a holder; the unstructure probes also run under the tuple strategy
+(unstruct_strat).  EVERY option `copy()` can override is overridden, in BOTH directions (True->False as well as
+False->True, {}->{...} as well as {...}->{}, also to the value the source already has), systematically (one option at a
+time, then a second-generation copy) and at random; P1 compares ALL option attributes of the copy with those of a fresh
+converter constructed with the overridden options; no use of any converter of the store may write an option attribute.
 F52 probe (implementation only): operating one converter on `G[int]` (generic attrs class) must not change what another
 instance does with `G[int]`.
 """
@@ -69,13 +75,37 @@ class ExtH:
     k: Annotated[ExtK, "m"]
 
 
+@attrs.define
+class ExtS:
+    s: Annotated[set[int], "m"]
+    p: set[int]
+    f: Annotated[frozenset[int], "m"]
+
+
+@attrs.define
+class ExtT:
+    f: float
+
+
+@attrs.define
+class ExtHT:
+    t: Annotated[ExtT, "m"]
+    u: ExtT
+
+
 def _ext_canon(v):
     if attrs.has(type(v)) and type(v).__name__.startswith("Ext"):
         return ("inst", type(v).__name__, [(a.name, _ext_canon(getattr(v, a.name))) for a in attrs.fields(type(v))])
     if isinstance(v, tuple):
         return ("tuple", [_ext_canon(x) for x in v])
-    if isinstance(v, dict):
-        return ("dict", sorted([(repr(k), _ext_canon(x)) for k, x in v.items()]))
+    if isinstance(v, list):
+        return ("list", [_ext_canon(x) for x in v])
+    if isinstance(v, (set, frozenset)):
+        return (type(v).__name__, sorted(repr(x) for x in v))
+    if isinstance(v, float):
+        return ("val", repr(v))
+    if isinstance(v, dict):  # the class of the mapping is an observable (dict_factory)
+        return ("dict" if type(v) is dict else "dict:" + type(v).__name__, sorted([(repr(k), _ext_canon(x)) for k, x in v.items()]))
     return dc.canon(v)
 
 
@@ -92,17 +122,35 @@ EXT = [
     ("A(invalid)", ST, dc.DspA, {"x": "zz"}),
     ("An[A](invalid)", ST, Annotated[dc.DspA, "m"], {"x": "zz"}),
     ("ExtH(invalid-annotated-field)", ST, ExtH, {"a": {"x": "zz"}, "d": {}, "k": {"k": 1}}),
+    # unstruct_collection_overrides
+    ("set[int]", UN, set[int], {3, 4}),
+    ("An[set[int]]", UN, Annotated[set[int], "m"], {3, 4}),
+    ("frozenset[int]", UN, frozenset[int], frozenset({3})),
+    ("An[frozenset[int]]", UN, Annotated[frozenset[int], "m"], frozenset({3})),
+    ("ExtS(annotated-set-fields)", UN, ExtS, ExtS({1}, {2}, frozenset({3}))),
+    # type_overrides
+    ("ExtT(float-field)", UN, ExtT, ExtT(1.5)),
+    ("An[ExtT](float-field)", UN, Annotated[ExtT, "m"], ExtT(1.5)),
+    ("ExtHT(annotated-field-with-float-field)", UN, ExtHT, ExtHT(ExtT(1.5), ExtT(2.5))),
+    ("ExtT<-{f}", ST, ExtT, {"f": 1.5}),
+    ("ExtT<-{F}", ST, ExtT, {"F": 1.5}),
+    ("An[ExtT]<-{F}", ST, Annotated[ExtT, "m"], {"F": 1.5}),
+    ("ExtHT<-{F}", ST, ExtHT, {"t": {"F": 1.5}, "u": {"F": 2.5}}),
+    # dict_factory (and the strategy): the class of what an instance is unstructured to
+    ("A(class-of-result)", UN, dc.DspA, dc.DspA(5)),
+    ("W(class-of-nested-results)", UN, dc.DspW, dc.DspW(dc.DspA(5), 5, [dc.DspB(5, 6)])),
 ]
+_EXT_ANNOTATED = (ExtH, ExtS, ExtHT)
 
 
 def ext_battery(impl, idx):
     """-> {("ext", name): canonical result}; exceptions are observed by class (detailed validation changes it)"""
     conv, cc = impl.convs[idx], impl.cfgs[idx]
     out = {}
-    if cc.tuple_strat:
-        return out  # the payloads above are mappings
     for name, d, t, x in EXT:
-        if not cc.gen() and "An" in name or (not cc.gen() and t is ExtH):
+        if cc.tuple_strat and d == ST:
+            continue  # the structure payloads above are mappings
+        if not cc.gen() and ("An[" in name or t in _EXT_ANNOTATED):
             continue  # BaseConverter has no Annotated support
         # (as in Impl.do: user hook factories created while this probe runs record whether they were handed THE
         # converter being operated on -- a hook cached here is reused by the ordinary probes)
@@ -138,6 +186,7 @@ def real_containers(conv, d):
 
 def model_locs(drv, history, d, cfgs0, preds):
     """[[five locations] per converter of the final store] from the identity layer of the model"""
+    dc.shape_info(drv)
     ctx0 = dc.ModelCtx(cfgs0[0], d, preds)
     sops, _ = dc.model_ops(history, d, cfgs0)
     parts = [f"(copy {s[1]} {ctx0.cfg_sx(s[2])})" if isinstance(s, tuple) else s for s in sops]
@@ -160,6 +209,14 @@ def kname(k):
     return f"{k[0]} {U.types[k[1]].name}" if k[0] != "ext" else f"option-sensitive probe {k[1]}"
 
 
+COLL_CHOICES = [{}, {"set": "list"}, {"set": "sorted"}, {"frozenset": "list"}, {"AbstractSet": "list"}]
+TYO_CHOICES = [{}, {"float": "F"}, {"float": "G"}]
+DF_CHOICES = ["dict", "OrderedDict"]
+BOOL_OPTS = {"Converter": ("detailed_validation", "prefer_attrib_converters", "forbid_extra_keys", "omit_if_default"),
+             "JsonConverter": ("detailed_validation", "prefer_attrib_converters", "forbid_extra_keys", "omit_if_default"),
+             "BaseConverter": ("detailed_validation", "prefer_attrib_converters")}
+
+
 def gen_cfg(rng, allow_json=True):
     r = rng.random()
     klass = "Converter" if r < 0.5 else ("BaseConverter" if r < 0.8 or not allow_json else "JsonConverter")
@@ -169,36 +226,88 @@ def gen_cfg(rng, allow_json=True):
             extra["forbid_extra_keys"] = True
         if rng.random() < 0.3:
             extra["omit_if_default"] = True
+        if rng.random() < 0.2:
+            extra["type_overrides"] = rng.choice(TYO_CHOICES[1:])
+    if klass == "Converter" and rng.random() < 0.25:
+        extra["unstruct_collection_overrides"] = rng.choice(COLL_CHOICES[1:])
     if rng.random() < 0.3:
         extra["prefer_attrib_converters"] = True
+    if rng.random() < 0.15:
+        extra["dict_factory"] = "OrderedDict"
     return ConvCfg(klass=klass, tuple_strat=rng.random() < 0.15,
                    fb_un=7001 if rng.random() < 0.4 else 0, fb_st=7002 if rng.random() < 0.4 else 0,
                    detailed=rng.random() < 0.6, extra=extra)
 
 
-def gen_copy(rng, src, cc):
-    """A copy op and the configuration of the resulting converter."""
-    how = rng.choice(["copy", "copy", "deepcopy", "kwargs", "kwargs"])
-    kwargs = {}
+def apply_override(cc, kwargs):
+    """configuration of `copy(**kwargs)` of a converter configured as `cc`: every given option replaces the source's,
+    every other option is carried"""
     new = ConvCfg.from_json(cc.to_json())
+    for k, v in kwargs.items():
+        if k == "detailed_validation":
+            new.detailed = v
+        elif k == "unstruct_strat":
+            new.tuple_strat = v == "astuple"
+        else:
+            new.extra[k] = v
+    return new
+
+
+def copy_op(src, cc, kwargs, how="copy"):
+    return {"op": "copy", "src": src, "how": how, "kwargs": kwargs, "cfg": apply_override(cc, kwargs).to_json()}
+
+
+def gen_copy(rng, src, cc):
+    """A copy op (the configuration of the resulting converter is in it).  With overrides: each overridable option is
+    given with some probability, its value drawn independently of the source's (so: True->False, False->True, and the value
+    the source already has -- explicitly)."""
+    how = rng.choice(["copy", "copy", "deepcopy", "kwargs", "kwargs", "kwargs"])
+    kwargs = {}
     if how == "kwargs":
-        if rng.random() < 0.5:
-            new.detailed = not cc.detailed
-            kwargs["detailed_validation"] = new.detailed
+        for k in BOOL_OPTS[cc.klass]:
+            if rng.random() < 0.4:
+                kwargs[k] = rng.random() < 0.5
         if rng.random() < 0.35:
-            new.tuple_strat = not cc.tuple_strat
-            kwargs["unstruct_strat"] = "astuple" if new.tuple_strat else "asdict"
-        if rng.random() < 0.4:
-            new.extra["prefer_attrib_converters"] = not cc.extra.get("prefer_attrib_converters", False)
-            kwargs["prefer_attrib_converters"] = new.extra["prefer_attrib_converters"]
-        if cc.klass != "BaseConverter":
-            if rng.random() < 0.4:
-                new.extra["forbid_extra_keys"] = not cc.extra.get("forbid_extra_keys", False)
-                kwargs["forbid_extra_keys"] = new.extra["forbid_extra_keys"]
-            if rng.random() < 0.4:
-                new.extra["omit_if_default"] = not cc.extra.get("omit_if_default", False)
-                kwargs["omit_if_default"] = new.extra["omit_if_default"]
-    return {"op": "copy", "src": src, "how": "copy" if how == "kwargs" else how, "kwargs": kwargs, "cfg": new.to_json()}
+            kwargs["unstruct_strat"] = rng.choice(["astuple", "asdict"])
+        if cc.klass == "Converter" and rng.random() < 0.3:
+            kwargs["unstruct_collection_overrides"] = rng.choice(COLL_CHOICES)
+        if cc.klass != "BaseConverter" and rng.random() < 0.3:
+            kwargs["type_overrides"] = rng.choice(TYO_CHOICES)
+        if rng.random() < 0.25:
+            kwargs["dict_factory"] = rng.choice(DF_CHOICES)
+    return copy_op(src, cc, kwargs, "copy" if how == "kwargs" else how)
+
+
+def systematic_option_cases():
+    """every option `copy()` can override x every (source value, given value) pair, one option at a time; then a copy of
+    that copy -- plain, or overriding the same option back"""
+    # (registrations that leave the classes of the option-sensitive probes to the built-in hooks)
+    p1 = {1: ({U.k("NA"), U.k("UAP"), U.k("list[A]"), U.k("P")}, set())}
+    out = []
+    n = 0
+    for klass in ("Converter", "BaseConverter"):
+        grid = [(k, [False, True], [False, True]) for k in BOOL_OPTS[klass]]
+        grid.append(("unstruct_strat", ["asdict", "astuple"], ["asdict", "astuple"]))
+        grid.append(("dict_factory", DF_CHOICES, DF_CHOICES))
+        if klass == "Converter":
+            grid.append(("unstruct_collection_overrides", COLL_CHOICES[:2], COLL_CHOICES[:3]))
+            grid.append(("type_overrides", TYO_CHOICES[:2], TYO_CHOICES))
+        for opt, src_vals, new_vals in grid:
+            for sv in src_vals:
+                for nv in new_vals:
+                    n += 1
+                    d = DIRS[n % 2]
+                    cc = apply_override(ConvCfg(klass=klass), {opt: sv})
+                    first = copy_op(0, cc, {opt: nv})
+                    c1 = ConvCfg.from_json(first["cfg"])
+                    second = copy_op(1, c1, {} if n % 3 else {opt: sv}, "deepcopy" if n % 3 == 1 else "copy")
+                    pre = [{"op": "hook", "conv": 0, "dir": d, "ty": U.k("Q"), "form": "call", "tag": 1},
+                           {"op": "factory", "conv": 0, "dir": d, "pred": 1, "extended": True, "form": "call", "tag": 2}]
+                    target = (1, 2, 0)[n % 3]
+                    post = [{"op": "hook", "conv": target, "dir": d, "ty": U.k("D"), "form": "call", "tag": 3}]
+                    out.append({"cfg": cc.to_json(), "preds": dc.preds_to_json(p1), "pre": pre, "copies": [first, second],
+                                "target": target, "post": post, "systematic": f"{klass}.copy({opt}: {sv!r} -> {nv!r})"})
+    return out
 
 
 def battery(impl, idx, names=None):
@@ -213,31 +322,10 @@ def battery(impl, idx, names=None):
 
 
 def option_view(conv):
-    """Publicly visible construction options of a converter (private ones only if present)."""
-    v = {"class": type(conv).__name__, "detailed_validation": conv.detailed_validation,
-         "unstruct_strat": conv.unstruct_strat.value}
-    for name in ("forbid_extra_keys", "omit_if_default", "type_overrides"):
-        if hasattr(conv, name):
-            v[name] = getattr(conv, name)
-    for name in ("_prefer_attrib_converters", "_dict_factory", "_unstruct_collection_overrides"):
-        if hasattr(conv, name):
-            v[name] = getattr(conv, name)
+    """class + every option attribute of a converter"""
+    v = dc.options_snapshot(conv)
+    v["class"] = type(conv).__name__
     return v
-
-
-def expected_options(src_view, op, new_cc):
-    e = dict(src_view)
-    kw = op.get("kwargs", {})
-    if "detailed_validation" in kw:
-        e["detailed_validation"] = kw["detailed_validation"]
-    if "unstruct_strat" in kw:
-        e["unstruct_strat"] = kw["unstruct_strat"]
-    for k in ("forbid_extra_keys", "omit_if_default"):
-        if k in kw:
-            e[k] = kw[k]
-    if "prefer_attrib_converters" in kw:
-        e["_prefer_attrib_converters"] = kw["prefer_attrib_converters"]
-    return e
 
 
 def fresh_replay(preds, cc, regs):
@@ -271,7 +359,6 @@ def run_case(chk, drv, case, global_ref, stats, corr_fail, loc_fail=None):
     # ---- copies, checked at copy time
     for cop in copies:
         src = cop["src"]
-        src_view = option_view(impl.convs[src])
         src_bat = battery(impl, src)
         full.extend(dc.probe_ops(src, d, impl.cfgs[src]) for d in ())  # (battery ops are appended below)
         for d in DIRS:
@@ -284,12 +371,13 @@ def run_case(chk, drv, case, global_ref, stats, corr_fail, loc_fail=None):
         for d in DIRS:
             full.extend(dc.probe_ops(new, d, ncc))
         where = f"{dc.describe(cop)} {where0}"
-        # P1: class and options
-        got = option_view(impl.convs[new])
-        exp = expected_options(src_view, cop, ncc)
-        for k in exp:
-            if k in got and got[k] != exp[k] and not (callable(got[k]) and callable(exp[k]) and k == "_dict_factory" and got[k] is exp[k]):
-                viol.append((f"C18 oracle P1: option {k} of the copy is {got[k]!r}, expected {exp[k]!r} {where}", True))
+        # P1: class and options = those of a converter constructed with the source's options, the given ones replaced
+        fr = fresh_replay(preds, ncc, regs_of[src])
+        got, exp = option_view(impl.convs[new]), option_view(fr.convs[0])
+        for k in sorted(set(exp) | set(got)):
+            if got.get(k) != exp.get(k):
+                viol.append((f"C18 oracle P1: option {k} of the copy is {got.get(k)!r}, expected {exp.get(k)!r} (source "
+                             f"{impl.cfgs[src].opts()}, copy(**{cop.get('kwargs', {})})) {where}", True))
         # P1: same results as the source (same strategy)
         if ncc.tuple_strat == impl.cfgs[src].tuple_strat:
             for k in src_bat:
@@ -300,11 +388,10 @@ def run_case(chk, drv, case, global_ref, stats, corr_fail, loc_fail=None):
                                  f"{new_bat[k]!r} {where}", True))
                     break
         # P1': same results as a fresh converter with the overridden options + the registrations
-        fr = fresh_replay(preds, ncc, regs_of[src])
         fr_bat = battery(fr, 0)
         for k in fr_bat:
             if k in new_bat and fr_bat[k] != new_bat[k]:
-                viol.append((f"C18 oracle P1': {kname(k)}: copy gives {new_bat[k]!r}, a fresh {ncc.name()} {ncc.extra} with the same "
+                viol.append((f"C18 oracle P1': {kname(k)}: copy gives {new_bat[k]!r}, a fresh {ncc.opts()} with the same "
                              f"registrations gives {fr_bat[k]!r} {where}", True))
                 break
         stats["copies"] += 1
@@ -381,6 +468,9 @@ def run_case(chk, drv, case, global_ref, stats, corr_fail, loc_fail=None):
     dc.prune_linecache()
     for e in impl.reg_errors:
         viol.append(("C18 oracle: a registration raised: " + e, True))
+    for w in impl.options_written():
+        viol.append((f"C18 oracle P2: an option attribute was written after construction (by use, by copying, or by an operation "
+                     f"on another converter): {w} {wherep}", True))
     return viol
 
 
@@ -503,9 +593,10 @@ def run(chk: framework.Check):
         chk.count("cross-instance" + json.dumps(case, sort_keys=True), nontrivial=True, sample=case)
         if chk.violation(what, case, found_input=True):
             stats["oracle_fail"] += 1
-    if any(f.get("signature") == F52_SIG for f in chk.known) and not chk.known_hits.get("F52"):
-        print("STALE-FINDING: property=C18 F52 did not reproduce in this run (cross-instance probe is its witness)")
-        chk.note("stale-finding:F52")
+    for f in chk.known:
+        if f.get("signature") == F52_SIG and not chk.known_hits.get(f["id"]):
+            print(f"STALE-FINDING: property=C18 {f['id']} did not reproduce in this run (cross-instance probe is its witness)")
+            chk.note("stale-finding:" + f["id"])
     gimpl = Impl({})
     gimpl.adopt(cattrs_global(), ConvCfg("Converter"))
     global_ref = battery(gimpl, 0, GLOBAL_BATTERY)
@@ -538,6 +629,7 @@ def run(chk: framework.Check):
                             post = [dict(reg, conv=target, tag=2), {"op": "func", "conv": target, "dir": d, "pred": 1, "tag": 3}]
                             cases.append({"cfg": cc.to_json(), "preds": dc.preds_to_json(p1), "pre": [reg], "copies": [cop],
                                           "target": target, "post": post})
+    cases += systematic_option_cases()
     n_rand = 220 if quick else 3000
     for _ in range(n_rand):
         cases.append(gen_case(rng, quick))
@@ -550,10 +642,17 @@ def run(chk: framework.Check):
                           "copies": [dc.describe(o) for o in case["copies"]], "target": case["target"],
                           "post": [dc.describe(o) for o in case["post"]]})
         chk.note("cfg:" + cc.name().split("/")[0], "copies:%d" % len(case["copies"]), "target:" + ("original" if case["target"] == 0 else "copy"))
+        if "systematic" in case:
+            chk.note("systematic-option-override")
+        cfgs_ = [cc]
         for c in case["copies"]:
-            chk.note("copy:" + c["how"] + (":overrides" if c["kwargs"] else ""))
-            for k in c["kwargs"]:
-                chk.note("override:" + k)
+            chk.note("copy:" + c["how"] + (":overrides" if c["kwargs"] else "") + (":of-a-copy" if c["src"] else ""))
+            src_cc = cfgs_[c["src"]]
+            for k, v in c["kwargs"].items():
+                old = {"detailed_validation": src_cc.detailed, "unstruct_strat": "astuple" if src_cc.tuple_strat else "asdict"}.get(
+                    k, src_cc.extra.get(k, {"dict_factory": "dict", "type_overrides": {}, "unstruct_collection_overrides": {}}.get(k, False)))
+                chk.note(f"override:{k}:" + (f"{old}->{v}" if isinstance(v, bool) else ("same" if old == v else "changed")))
+            cfgs_.append(ConvCfg.from_json(c["cfg"]))
         if cc.fb_un or cc.fb_st:
             chk.note("fallback-factory")
         for op in case["pre"]:
